@@ -12,7 +12,7 @@ from ..ref import ricartt
 from .. import lib
 
 VALS = (0., -1., 1.234567e-30, 9.999999e30, 123456.7, -1.234567e-4)
-MISS = (-999., -9999., -99999.5, -8888., -9999.999, -9999999.)
+MISS = (-999., -9999., -99999.5, -8888., -9999.999, -9999999., 0.)
 MASKS = ('none', 'one', 'column', 'near')
 COMMENTS = (('PI_CONTACT_INFO', 'someone@example.org'), ('DATA_INFO', 'ratio 1:2 in ppbv'),
             ('REVISION', 'R0'),
@@ -63,6 +63,8 @@ class Prop(core.Prop):
     def expand(self, group):
         for mi in range(len(MISS)):
             for mk in MASKS:
+                if mk == 'near' and MISS[mi] == 0:
+                    continue      # 'within 5e-6 of the code' is the code itself when the code is 0
                 for cs in range(16):
                     for iu in (True, False):
                         for src in ('built', 'built-fillvalue', 'text'):
@@ -75,6 +77,13 @@ class Prop(core.Prop):
                 yield dict(group, miss=0, mask=mk, comments=cs, indep_units=True, source='built-depfirst')
         for extra in (82, 83, 84, 120):
             yield dict(group, miss=0, mask='one', comments=0, indep_units=True, source='built', extra=extra)
+        for mk in ('none', 'one', 'column'):
+            for mi in (0, 6):
+                yield dict(group, miss=mi, mask=mk, comments=0, indep_units=True, source='built-values')
+        # whole seconds stored in an integer-typed independent variable next to float dependents
+        for mk in MASKS:
+            for mi in (0, 2):
+                yield dict(group, miss=mi, mask=mk, comments=0, indep_units=True, source='built', time_int=True)
 
     def table(self, case):
         nrec, ndep = case['nrec'], case['ndep']
@@ -84,6 +93,8 @@ class Prop(core.Prop):
             for j in range(ndep):
                 t[i, j] = VALS[k % len(VALS)]
                 k += 1
+        if MISS[case['miss']] == 0:
+            t[t == 0] = 5.       # a datum equal to the missing code cannot be told from a missing one
         m = np.zeros((nrec, ndep), bool)
         if case['mask'] == 'one':
             m[nrec - 1, 0] = True
@@ -127,7 +138,7 @@ class Prop(core.Prop):
             setattr(f, 'COMMENT_%03d' % i, 'note number %d' % i)
 
         def indep():
-            tv = f.createVariable('Start_UTC', 'd', ('POINTS',), missing_value=miss,
+            tv = f.createVariable('Start_UTC', 'i' if case.get('time_int') else 'd', ('POINTS',), missing_value=miss,
                                   units='seconds' if case['indep_units'] else 'Start_UTC')
             tv[:] = time
         if case['source'] != 'built-depfirst':
@@ -135,6 +146,11 @@ class Prop(core.Prop):
         for j in range(ndep):
             if j == 1 and case['source'] == 'built-depfirst':
                 indep()
+            if case['source'] == 'built-values':
+                # data handed over as a masked array: the array keeps numpy's own fill value next to missing_value
+                v = f.createVariable(NAMES[j], 'd', ('POINTS',), missing_value=miss, units=UNITS[j],
+                                     values=np.ma.MaskedArray(t[:, j].copy(), mask=m[:, j].copy()))
+                continue
             if case['source'] == 'built-fillvalue':
                 # masked variable that carries its missing code only as the fill value
                 v = f.createVariable(NAMES[j], 'd', ('POINTS',), fill_value=miss, units=UNITS[j])
